@@ -30,10 +30,17 @@ def members(body):
     out = {}
     if body is None:
         return out
-    for mm in re.finditer(r"inline ([^\n(]*?)\b(\w+)\(([^)]*)\) (const |&& )?noexcept", body):
-        params = [x.strip() for x in mm.group(3).split(",")] if mm.group(3).strip() else []
-        ptypes = [re.sub(r"\s*\w+$", "", x).replace(" ", "") for x in params]
-        out[mm.group(2)] = {"ret": mm.group(1).strip().replace(" ", ""), "params": ptypes, "qual": (mm.group(4) or "").strip()}
+    import bindgen_mock
+    for mm in re.finditer(r"inline ([^\n(]*?)\b(\w+)\(", body):
+        i, depth = mm.end(), 1
+        while i < len(body) and depth:
+            depth += {"(": 1, ")": -1}.get(body[i], 0)
+            i += 1
+        q = re.match(r" (const |&& )?noexcept", body[i:])
+        if not q:
+            continue
+        params = bindgen_mock.split_params(body[mm.end():i - 1])
+        out[mm.group(2)] = {"ret": mm.group(1).strip().replace(" ", ""), "params": [bindgen_mock.param_type(x) for x in params], "qual": (q.group(1) or "").strip()}
     return out
 
 
@@ -43,6 +50,7 @@ def gen(model, header_text):
     c.append('#include <cstdio>\n#include <cstring>\n#include <utility>\n#include "processed.hpp"\n')
     c.append("static unsigned char SBUF[8] = {1,2,3,4,5,6,7,8};\nstatic int INST; static int INST2; static int CTXV; static int CBX;\n")
     c.append("static bool mock_cb_Pt(void *c, Pt v) { (void)c; (void)v; return true; }\nstatic bool mock_cb_u64(void *c, uint64_t v) { (void)c; (void)v; return true; }\n")
+    c.append("static void mock_fn(int32_t v) { (void)v; }\n")
     c.append('static void mock_box_drop(void *p) { printf("{\\"ev\\":\\"box_drop\\",\\"ok\\":%d}\\n", p == (void *)&INST); }\n')
     c.append('static const void *mock_arc_clone(const void *p) { printf("{\\"ev\\":\\"ctx_clone\\",\\"ok\\":%d}\\n", p == (const void *)&CTXV); return p; }\n')
     c.append('static void mock_arc_drop(const void *p) { printf("{\\"ev\\":\\"ctx_drop\\",\\"ok\\":%d}\\n", p == (const void *)&CTXV); }\n')
@@ -67,7 +75,7 @@ def gen(model, header_text):
             for m in traits[tr]["methods"]:
                 fn = "mock_%d_%s_%s" % (ti, tr, m["name"])
                 recv = {"ref": "const C%d *cont" % ti, "mut": "C%d *cont" % ti, "own": "C%d cont" % ti}[m["recv"]]
-                args = "".join(", %s a%d" % (CT[t], i) for i, t in enumerate(m["args"]))
+                args = "".join(", " + cbgen.decl(CT[t], "a%d" % i) for i, t in enumerate(m["args"]))
                 ret = ("C%d" % ti) if m["ret"] == "cont" else CT[m["ret"]]
                 body = []
                 if m["recv"] == "own":
@@ -88,6 +96,8 @@ def gen(model, header_text):
                         fmt.append("%d"); vals.append("(int)(a%d - SBUF)" % i)
                     elif t in cbgen.CB_ELEM:
                         fmt.append("[%d,%d]"); vals.append("(int)(a%d.context == (void *)&CBX), (int)(a%d.func == mock_cb_%s)" % (i, i, cbgen.CB_ELEM[t][0]))
+                    elif t == "fnptr":
+                        fmt.append("%d"); vals.append("(int)(a%d == mock_fn)" % i)
                 body.append('    printf("{\\"ev\\":\\"slot\\",\\"ty\\":%d,\\"tr\\":\\"%s\\",\\"m\\":\\"%s\\",\\"cont_ok\\":%%d,\\"args\\":[%s]}\\n", cont_ok%s);'
                             % (ti, tr, m["name"], ",".join(fmt), ("," + ",".join(vals)) if vals else ""))
                 if m["recv"] == "own":
@@ -174,6 +184,8 @@ def gen(model, header_text):
                         argv.append("SBUF + %d" % (i + 2)); sent.append(i + 2)
                     elif t in cbgen.CB_ELEM:
                         argv.append("mkcb_%s()" % cbgen.CB_ELEM[t][0]); sent.append([1, 1])
+                    elif t == "fnptr":
+                        argv.append("mock_fn"); sent.append(1)
                 rec["sent"] = sent
                 rec["expret"] = rvals.get((ti, tr, m["name"]), [])
                 recvx = "std::move(o)." if m["recv"] == "own" else "o."
